@@ -847,6 +847,67 @@ impl<'r> Gen<'r> {
     }
 
     fn gen_pure(&mut self, ty: Ty, budget: usize, ctx: &Ctx) -> T {
+        // binding forms are pure when their parts are: they put binders (and so shadowing) into
+        // argument position
+        if budget >= 3 {
+            match self.rng.below(11) {
+                0..=2 => {
+                    let bty = self.pool_ty();
+                    let parts = self.split(budget - 1, 2);
+                    let bound = self.term(bty, parts[0], ctx);
+                    let b = self.new_binder(bty, false, &[]);
+                    let mut c2 = ctx.clone();
+                    c2.scope.push(b);
+                    let body = self.term(ty, parts[1], &c2);
+                    self.feat("let");
+                    self.feat("let_in_pure_position");
+                    return T::Let { b, bound: Box::new(bound), body: Box::new(body) };
+                }
+                3..=4 => {
+                    let parts = self.split(budget - 1, 4);
+                    let fst = self.term(Ty::I64, parts[0].min(4), ctx);
+                    let two = self.rng.chance(2, 3);
+                    let snd = if two { Some(Box::new(self.term(Ty::I64, parts[1].min(4), ctx))) } else { None };
+                    let thn = self.term(ty, parts[2], ctx);
+                    let els = self.term(ty, parts[3], ctx);
+                    self.feat("if");
+                    self.feat("if_in_pure_position");
+                    let cmp = *self.rng.pick(&Cmp::ALL);
+                    let zero_left = self.rng.chance(1, 3);
+                    return T::If { cmp, fst: Box::new(fst), snd, zero_left, thn: Box::new(thn), els: Box::new(els) };
+                }
+                5..=6 => {
+                    let datas: Vec<usize> = self.pool.iter().filter_map(|t| if let Ty::Inst(i) = t { if self.p.is_data(*t) { Some(*i) } else { None } } else { None }).collect();
+                    if !datas.is_empty() {
+                        let inst = *self.rng.pick(&datas);
+                        let nx = self.p.insts[inst].xtors.len();
+                        let parts = self.split(budget - 1, nx + 1);
+                        let scrut = self.term(Ty::Inst(inst), parts[0].min(6), ctx);
+                        let mut clauses = Vec::new();
+                        for xi in 0..nx {
+                            let fields = self.p.insts[inst].xtors[xi].fields.clone();
+                            let mut names = Vec::new();
+                            let mut binders = Vec::new();
+                            for (cns, t) in &fields {
+                                let b = self.new_binder(*t, *cns, &names);
+                                names.push(self.p.binders[b].name.clone());
+                                binders.push(b);
+                            }
+                            let mut c2 = ctx.clone();
+                            c2.scope.extend(binders.iter().cloned());
+                            let body = self.term(ty, parts[xi + 1], &c2);
+                            clauses.push(ClauseA { binders, body });
+                        }
+                        let mut order: Vec<usize> = (0..nx).collect();
+                        self.rng.shuffle(&mut order);
+                        self.feat("case");
+                        self.feat("case_in_pure_position");
+                        return T::Case { scrut: Box::new(scrut), inst, clauses, order };
+                    }
+                }
+                _ => {}
+            }
+        }
         match ty {
             Ty::I64 => {
                 if self.rng.chance(1, 2) {
